@@ -12,7 +12,7 @@ ASSUMPTIONS = [
     'GMGPolar state built directly; coefficients via the small-rational libm mode; -DNDEBUG',
 ]
 OUTSIDE = ['grids other than 9x8/5x4', 'the convergence rate (first sentence)', 'floating-point effects in the comparison']
-BOUNDS = {'quick': '2-level 9x8/5x4; max_iterations in {1,2}; extrapolation in {none, implicit} with 2 iterations, {full-grid smoothing, combined} with 1 iteration; Euclidean and maximum norm; tolerance modes both / abs only / rel only',
+BOUNDS = {'quick': '2-level 9x8/5x4; max_iterations in {1,2}; extrapolation in {none, implicit} with 2 iterations, {full-grid smoothing, combined} with 1 iteration; Euclidean, weighted Euclidean and maximum norm, each with the absolute test; tolerance modes both / abs only / rel only',
           'thorough': 'max_iterations in {1,2,3}; extrapolation 0-3; three norm types; both strategies and boundary modes; three tolerance modes'}
 
 
@@ -32,6 +32,9 @@ def jobs(tier, seed):
         add(0, 1, 0, 1, 1, 2)
         add(2, 1, 0, 0, 1, 1)
         add(3, 0, 1, 0, 1, 1)
+        # every norm type with the absolute tolerance firing (a wrong scaling of the norm cancels in the relative test)
+        add(0, 0, 1, 1, 1, 1)
+        add(1, 1, 0, 1, 1, 0)
     else:
         for ex in (0, 1, 2, 3):
             for norm in (0, 1, 2):
